@@ -256,8 +256,11 @@ def step (line : String) : String :=
               ("default", match a.default with | some v => valToJson v | none => Json.null)]).toArray)]).compress
        | _ =>
          if !Kinds.dom (.func inl) ir then "{\"unmodelled\":\"outside the function domain\"}" else
-         let sg := Views.sigView inl kwo ir
+         let ftOf (k : String) : Option Views.FType := match (j.getObjValAs? String k).toOption with
+           | some "static" => some .static | some "self" => some .self | some "cls" => some .cls | _ => none
+         let sg := Views.sigView inl kwo ir (Views.effectiveType (ftOf "function_type") ((ftOf "ir_type").getD .static))
          (Json.mkObj [("ok", Json.mkObj [
+            ("receiver", ostr sg.receiver),
             ("params", Json.arr (sg.params.map fun p => Json.mkObj [("name", Json.str (String.ofList p.name)), ("kwonly", Json.bool p.kwOnly),
                 ("annotation", ostr p.annotation), ("default", valToJson p.default)]).toArray),
             ("var_kw", Json.bool sg.hasVarKw), ("return", ostr sg.returnAnnotation)])]).compress)
